@@ -57,7 +57,7 @@ HOLDING_ASSUMPTIONS = [
     "averaging period reduced to 3 (package variable) so that the averages are those of the last rated block; rates of the executing block are the table rows InsertRates would have written",
 ]
 SYNCBLOCK = {"id": "syncblock-glue", "func": "VerifSyncBlock", "pkg": NODE, "pkgname": "node", "load": ["./node"],
-             "params": {"quick": {}, "thorough": {}}, "must_cover": ["ran"], "max_witness_replays": 8}
+             "params": {"quick": {}, "thorough": {}}, "must_cover": ["ran", "held-conversion-considered", "held-conversion-waits"], "max_witness_replays": 8}
 GRADEGLUE = {"id": "grade-glue", "func": "VerifGradeGlue", "pkg": NODE, "pkgname": "node", "load": ["./node"],
              "params": {"quick": {}, "thorough": {}}, "must_cover": ["mining", "staking"], "max_witness_replays": 6}
 TXBLOCK_ASSUMPTIONS = [
@@ -152,6 +152,7 @@ PROPS = {
             {"id": "averages", "func": "VerifAverages", "pkg": NODE, "pkgname": "node", "load": ["./node"],
              "params": {"quick": {"period": 3, "heights": 6}, "thorough": {"period": 4, "heights": 9}},
              "must_cover": ["three-or-more-rated", "few-rated"], "max_witness_replays": 4},
+            dict(GRADEGLUE, id="grade-glue-order", replay_mode="order", native_repeat=24, max_witness_replays=3),
         ],
         "wall": {"quick": 400, "thorough": 3000},
         "bounds": {"quick": "(process history) the averaging cache of a daemon that lived through the chain vs one restarted before any rated block, as C09; order oracle = any permutation of one map iteration or one unstable sort per run (deviation budget 1); supply set with <=2 requests; SnapshotPayouts with 2 eligible stakers (1 asset, concrete rates, symbolic balances incl. exact ties)",
@@ -343,7 +344,7 @@ PROPS = {
         "harnesses": [
             {"func": "VerifConvert", "pkg": CONV, "pkgname": "conversions", "load": ["./node/conversions"],
              "must_cover": ["specified-error", "overflow-error", "converted-pip10", "converted-legacy"]},
-        ] + HOLDING_HARNESSES + TXBLOCK_HARNESSES[:1],
+        ] + HOLDING_HARNESSES + TXBLOCK_HARNESSES[:1] + [SYNCBLOCK],
         "bounds": {"quick": "Convert: amount int64, four rates uint64, height uint32 - full ranges, no loop"},
         "assumptions": ["math/big modelled as mathematical integers (Div/Quo by q,r form)"],
     },
